@@ -210,7 +210,7 @@ pub fn run(ctx: &Ctx) -> Report {
                 }
                 rep.label(&format!("fault at {}", call));
                 if rep.samples.len() < 3 && k == 3 {
-                    rep.sample(json!({"case": c, "call": call}));
+                    rep.sample(json!({"case": c, "operation": OP_NAMES[os.op as usize], "pre_state": PRE_NAMES[os.pre as usize], "writer": if os.fe == 1 { "sharded" } else { "plain" }, "failing_call": call, "meaning": "filesystem call #k of the operation fails once with errno"}));
                 }
                 if let Err((sig, detail)) = r {
                     rep.violation(&sig, detail, json!({"case": c}));
